@@ -21,6 +21,15 @@ ASSUMPTIONS = ASSUMED_EXTERNALS + [
 ALL_EMP_DOWN = '''forall(lambda k: implies(
      0 <= k and k < old(len(self.employees)),
      old(self.employees)[k].conn.closed), 'int')'''
+# "in bounded time" is not provable, but one necessary condition is an effect
+# frame: the shutdown path never waits for the outgoing queue to drain
+# (Queue.join) - send_outgoing skips closed connections without task_done(),
+# so that wait may never end.  (Joining the outgoing *thread* after the
+# sentinel is what the code does and is not excluded.)
+NO_DRAIN_WAIT = '''forall(lambda i: implies(
+     old(nsent()) <= i and i < nsent(),
+     not eff_kind(i, 'outgoing.join')), 'int')'''
+NO_DRAIN_WAIT0 = NO_DRAIN_WAIT.replace('old(nsent())', 'old0(nsent())')
 ALL_CLIENTS_CLOSED = '''forall(lambda c: implies(old(c in self.clients),
      c.closed), 'Conn')'''
 
@@ -41,13 +50,15 @@ def contracts(p: Program) -> list[str]:
             "eff(old(nsent()), 'send', self.conn, RuntimeMessage.SHUTDOWN, "
             "None)",
             "unchanged('closed', 'process', 'running', 'employees')",
+            NO_DRAIN_WAIT,
         ],
         raises=[], modifies=['effects'],
     ))
     add(Contract(
         'RuntimeEmployee.initiate_shutdown#peer_gone', params={},
         requires=[], env={'send_may_fail': True},
-        ensures=["unchanged('closed', 'process', 'running', 'employees')"],
+        ensures=["unchanged('closed', 'process', 'running', 'employees')",
+                 NO_DRAIN_WAIT],
         raises=[], modifies=['effects'],
         note='the send may raise: the exception must not escape',
     ))
@@ -58,6 +69,7 @@ def contracts(p: Program) -> list[str]:
             'self.conn.closed', 'is_none(self.process)',
             "unchanged_except('closed', self.conn)",
             "unchanged('running', 'employees', 'clients')",
+            NO_DRAIN_WAIT,
         ],
         raises=[], modifies=['effects', 'closed', 'process'],
     ))
@@ -66,6 +78,7 @@ def contracts(p: Program) -> list[str]:
         'ServerBase.handle_shutdown', params={}, self_cls='DetachedServer',
         requires=['Inv_emp(self)'],
         ensures=[
+            NO_DRAIN_WAIT,
             'not self.running', 'len(self.employees) == 0', ALL_EMP_DOWN,
             # every employee was told to shut down before it was closed
             '''forall(lambda k: implies(
@@ -85,6 +98,7 @@ def contracts(p: Program) -> list[str]:
                 '''forall(lambda k: implies(0 <= k and k < _i,
                      eff(old(nsent()) + k, 'send', self.employees[k].conn,
                          RuntimeMessage.SHUTDOWN, None)), 'int')''',
+                NO_DRAIN_WAIT0,
             ]},
             1: {'header': 'self.employees', 'invariant': [
                 "unchanged('employees', 'clients', 'tasks', 'mailboxes', "
@@ -98,6 +112,7 @@ def contracts(p: Program) -> list[str]:
                      eff(old0(nsent()) + k, 'send', self.employees[k].conn,
                          RuntimeMessage.SHUTDOWN, None)), 'int')''',
                 'nsent() >= old0(nsent()) + len(self.employees)',
+                NO_DRAIN_WAIT0,
             ]},
         },
     ))
@@ -106,6 +121,7 @@ def contracts(p: Program) -> list[str]:
         'DetachedServer.handle_shutdown', params={},
         requires=['Inv_emp(self)'],
         ensures=[
+            NO_DRAIN_WAIT,
             'not self.running', 'len(self.employees) == 0', ALL_EMP_DOWN,
             ALL_CLIENTS_CLOSED,
             'forall(lambda c: not (c in self.clients), "Conn")',
@@ -117,6 +133,7 @@ def contracts(p: Program) -> list[str]:
             '''forall(lambda k: implies(0 <= k and k < _i, _it[k].closed),
                'int')''',
             '''forall(lambda c: implies(old(c.closed), c.closed), 'Conn')''',
+            NO_DRAIN_WAIT0,
         ]}},
     ))
 
@@ -143,6 +160,7 @@ def contracts(p: Program) -> list[str]:
         'AttachedServer.handle_disconnect', params={'conn': 'Conn'},
         self_cls='AttachedServer', requires=['Inv_emp(self)'],
         ensures=[
+            NO_DRAIN_WAIT,
             'not self.running', 'len(self.employees) == 0', ALL_EMP_DOWN,
             ALL_CLIENTS_CLOSED,
         ],
@@ -152,6 +170,7 @@ def contracts(p: Program) -> list[str]:
         'Manager.handle_shutdown', params={}, self_cls='Manager',
         requires=['Inv_emp(self)'],
         ensures=[
+            NO_DRAIN_WAIT,
             'not self.running', 'len(self.employees) == 0', ALL_EMP_DOWN,
             # the shutdown is forwarded upstream, then that side is closed
             '''eff(nsent() - 2, 'send', self.upstream,
@@ -165,6 +184,7 @@ def contracts(p: Program) -> list[str]:
         'Manager.handle_shutdown#boss_gone', params={}, self_cls='Manager',
         requires=['Inv_emp(self)'], env={'send_may_fail': True},
         ensures=[
+            NO_DRAIN_WAIT,
             'not self.running', 'len(self.employees) == 0',
             '''forall(lambda c: implies(old(c.closed), c.closed), 'Conn')''',
         ],
@@ -176,6 +196,7 @@ def contracts(p: Program) -> list[str]:
         self_cls='Manager',
         requires=['Inv_emp(self)', 'conn in self.conn_to_employee_dict'],
         ensures=[
+            NO_DRAIN_WAIT,
             'conn.closed', 'not self.running', 'len(self.employees) == 0',
             ALL_EMP_DOWN,
         ],
@@ -255,18 +276,22 @@ def bounded(tier: str) -> dict:
         state in which handle_disconnect calls handle_shutdown."""
         def gen():
             yield from base_gen()
-            for n in (2, 3):
+            for n, alive in ((2, False), (3, False), (2, True)):
                 for dead in range(n):
                     args = (
                         (1,) * n, (0,) * n, ((),) * n, (1,) * n, 0,
                         (0, None) if cls is rt.Manager else None,
                     )
 
-                    def rebuild(args=args, dead=dead):
+                    def rebuild(args=args, dead=dead, alive=alive):
                         s2 = rt.mk_sched(cls, *args)
                         s2.extra['employee_conns'][dead].closed = True
-                        s2.desc = s2.desc + ('employee %d already closed'
-                                             % dead,)
+                        # the outgoing thread may still be running
+                        s2.node.outgoing_thread._alive = alive
+                        s2.desc = s2.desc + (
+                            'employee %d already closed%s' % (
+                                dead, ', outgoing thread alive' if alive
+                                else ''),)
                         s2.extra['rebuild'] = rebuild
                         s2.extra['overrides'] = {
                             'Conn': lambda sc: sc.extra['employee_conns'],
